@@ -361,6 +361,8 @@ def contains(I, container, x, node):
         return z3.Contains(mk_str(c), mk_str(x))
     if isinstance(c, Sym) and c.kind == "seq":
         return z3.Contains(c.t, z3.Unit(unwrap_elem(I, x, c.elem)))
+    if isinstance(c, SObj) and isinstance(c.fields.get("__contains__"), NativeFn):       # abstract object with a modelled membership test
+        return truth(I, c.fields["__contains__"].fn(I, [x], {}))
     if isinstance(c, SObj) and isinstance(c.cls, ClassInfo):
         m = c.cls.find_method("__contains__")
         if m is not None:
